@@ -510,12 +510,13 @@ func packetCount(h *History, start Pos) int {
 }
 
 type faultEmphasis struct {
-	ConnPhase   int // 1/n chance that a fault attempt is a connection-phase fault
-	Kinds       []stopKind
-	MaxFaults   int
-	OddNames    bool
-	Timeout     bool
-	FreshChance int
+	GateAccepted bool // C17: some injected packets are bare headers that pass the validity gate
+	ConnPhase    int  // 1/n chance that a fault attempt is a connection-phase fault
+	Kinds        []stopKind
+	MaxFaults    int
+	OddNames     bool
+	Timeout      bool
+	FreshChance  int
 }
 
 func genFaultScenario(t *Tape, o *GenOpts, em faultEmphasis) *Scenario {
@@ -556,6 +557,20 @@ func genFaultScenario(t *Tape, o *GenOpts, em faultEmphasis) *Scenario {
 				k = stopTimeout
 			}
 			fillFault(fs, h, k, at, &p)
+			if em.GateAccepted && k == stopInvalidEvent && fs.Chance(1, 8) {
+				// a header and nothing else (19 bytes), or a header and 1..3 bytes: the
+				// length field is right, so the gate accepts the buffer; with checksums on
+				// it is shorter than header + checksum. What the stream does with it is
+				// not specified - header accessors must not fail on it, nothing may panic.
+				n := 19 + fs.N(4)
+				b := fs.Bytes(n)
+				b[4] = []byte{16, 16, 16, 3, 27, 35, 36, 40, 99, 200}[fs.N(10)] // XID, STOP, HEARTBEAT, unknown types
+				b[9], b[10], b[11], b[12] = byte(n), 0, 0, 0
+				p.Stream.Invalid, p.Stream.GateAccepted, p.Stream.Second = b, true, false
+				if p.Stream.AtPacket < 2 {
+					p.Stream.AtPacket = 2
+				}
+			}
 		}
 		if em.FreshChance > 0 && i > 0 && fs.Chance(1, em.FreshChance) {
 			p.FreshStreamer = true
